@@ -590,43 +590,61 @@ func TestVerifPoolStress(t *testing.T) {
 	for _, idx := range env.vCases(runs) {
 		rng := vNewRand(env.Seed, "poolstress/"+env.Prop, idx)
 		out.Evaluations++
-		switch env.Prop {
-		case "C09":
-			ssRoundRobinExact(out, rng, idx)
-		case "C07":
-			ssOneReplacement(out, rng, idx)
-		case "C03":
-			switch idx % 3 {
-			case 0:
-				ssToctouGrow(out, rng, idx)
-			case 1:
-				ssSlowFactoryGrow(out, rng, idx)
-			default:
-				ssQuiescent(out, env, cfgs[5], rng, idx)
-			}
-		default:
-			if env.Prop == "C02" && idx%3 == 2 {
-				for sub := 0; sub < 30 && len(out.Violations) == 0; sub++ {
-					ssBalancedFill(out, rng, idx)
-				}
-				continue
-			}
-			cfg := cfgs[idx%int64(len(cfgs))]
-			if (env.Prop == "C06" || env.Prop == "C05") && idx%2 == 1 {
-				// lock-order inversions between completions and refresh take-overs
-				// need many of both: every other run uses the refresh-heavy workload
-				cfg = cfgs[len(cfgs)-1]
-				if idx%4 == 3 {
-					cfg.cp = proto.Clone(cfg.cp).(*pb.ChannelPoolConfig)
-					cfg.cp.FallbackToReady = true
-					cfg.cp.BindPickStrategy = pb.ChannelPoolConfig_ROUND_ROBIN
-					cfg.name = "refresh-heavy+fallback+rr"
-				}
-			}
-			ssQuiescent(out, env, cfg, rng, idx)
+		// the scenario runs on its own goroutine: a scenario that never returns (the
+		// code under test deadlocks in a set-up call) must not cost the whole batch
+		// timeout; ssQuiescent has its own, finer watchdog (C06.stress-hang)
+		scenDone := make(chan struct{})
+		go func() {
+			defer close(scenDone)
+			ssDispatch(out, env, cfgs, rng, idx)
+		}()
+		select {
+		case <-scenDone:
+		case <-time.After(150 * time.Second):
+			out.inconclusive("batch stopped early: a stress scenario did not return within 150s")
+			out.write(env.Out)
+			return
 		}
 	}
 	out.write(env.Out)
+}
+
+func ssDispatch(out *vOut, env vEnv, cfgs []ssCfg, rng *vRand, idx int64) {
+	switch env.Prop {
+	case "C09":
+		ssRoundRobinExact(out, rng, idx)
+	case "C07":
+		ssOneReplacement(out, rng, idx)
+	case "C03":
+		switch idx % 3 {
+		case 0:
+			ssToctouGrow(out, rng, idx)
+		case 1:
+			ssSlowFactoryGrow(out, rng, idx)
+		default:
+			ssQuiescent(out, env, cfgs[5], rng, idx)
+		}
+	default:
+		if env.Prop == "C02" && idx%3 == 2 {
+			for sub := 0; sub < 30 && len(out.Violations) == 0; sub++ {
+				ssBalancedFill(out, rng, idx)
+			}
+			return
+		}
+		cfg := cfgs[idx%int64(len(cfgs))]
+		if (env.Prop == "C06" || env.Prop == "C05") && idx%2 == 1 {
+			// lock-order inversions between completions and refresh take-overs
+			// need many of both: every other run uses the refresh-heavy workload
+			cfg = cfgs[len(cfgs)-1]
+			if idx%4 == 3 {
+				cfg.cp = proto.Clone(cfg.cp).(*pb.ChannelPoolConfig)
+				cfg.cp.FallbackToReady = true
+				cfg.cp.BindPickStrategy = pb.ChannelPoolConfig_ROUND_ROBIN
+				cfg.name = "refresh-heavy+fallback+rr"
+			}
+		}
+		ssQuiescent(out, env, cfg, rng, idx)
+	}
 }
 
 // ssQuiescent: conservation (C02) and the pool bound (C03) at quiescence.
